@@ -208,11 +208,40 @@ def r5(ctx):
         ctx.check(P, rule, "reopened byte length is the sum of the stored root sizes", good, "byte_length += node.length over the stored roots", "MerkleTree::open computes byte_length from %s" % (term_str(d["byte_length"])[:100] if aggs else None))
 
 
-RULES = [r1, r2, r3, r4, r5]
+def r6(ctx):
+    """no element is skipped: loops that persist / apply one thing per element do so unconditionally"""
+    rule = "C01.R6"
+    cases = [
+        (APPEND_BATCH, [APPEND_CS], "batch", CS_APPEND, "every block of the batch is appended to the changeset"),
+        (BS_APPEND, None, "batch", None, "every block of the batch is copied into the data write"),
+        (MT_COMMIT, None, "changeset.nodes", None, "every node of a committed changeset becomes an unflushed node"),
+        (MT_FLUSH_NODES, None, "unflushed", SI_CONTENT, "every unflushed node is written"),
+        (BF_FLUSH, None, "unflushed", SI_CONTENT, "every dirty bitfield page is written"),
+        (NEW, [OPLOG_OPEN], "tree_nodes", MT_ADD_NODE, "every tree node of a replayed entry is re-added"),
+    ]
+    for fn, anchors, over, callee, what in cases:
+        fa = ctx.real_body(fn, anchors) if anchors else ctx.fn(fn)
+        if not need(ctx, P, rule, fn, fa):
+            continue
+        nx = iterator_loops(fa, over)
+        if not need(ctx, P, rule, "%s: loop over %s" % (fn.split("::")[-1], over), nx):
+            continue
+        if callee:
+            ss = [s for s in sites(fa, callee) if any(s in body and nx[0] in body for _, body, _ in fa.loops())]
+        else:
+            ss = [s for s, t in fa.calls() if (t.get("callee") or "").split("::")[-1] in ("extend_from_slice", "insert", "push") and any(s in body and nx[0] in body for _, body, _ in fa.loops())]
+        if not need(ctx, P, rule, "%s: per-element action" % fn.split("::")[-1], ss):
+            continue
+        r = every_element_reaches(fa, nx[0], ss[0])
+        ctx.check(P, rule, "%s: %s" % (fn.split("::")[-1], what), r is True, "no path from `Some(element)` to the next iteration or a normal exit avoids %s" % callee_of(fa.blocks[ss[0]].term).split("::")[-1],
+                  "%s can skip an element: %s is not executed for every element of `%s`" % (fn, callee_of(fa.blocks[ss[0]].term), over), [site_desc(fa, ss[0])], key="C01|C01.R6|%s|element skipped" % fn)
+
+
+RULES = [r1, r2, r3, r4, r5, r6]
 EXPLANATION = ("C01 (log contents equal an append-only list model across reopen): decides the replay codec agreement of the oplog Entry — each optional section is decoded under the flag bit it was "
                "encoded with, flags 1/2/4/8, same presence conditions in size and encode (R1); replay completeness — every field of Entry reaches its consumer inside the replay loop of Hypercore::new, the "
                "rebuilt changeset is completed, copied into the header and committed, entries are walked in log order (R2); the read gate — every storage read of get() is dominated by bitfield.get(index), the "
                "not-held edge returns Ok(None), has() is bitfield.get(index) (R3); append / clear placement — data offset = tree.byte_length before commit, bitfield update = [ancestors, +batch_length), clear "
-               "logs and drops exactly [start, end) (R4); observation provenance — AppendOutcome / Info come from the committed tree, commit copies the changeset, byte length accumulates node sizes (R5).")
+               "logs and drops exactly [start, end) (R4); observation provenance — AppendOutcome / Info come from the committed tree, commit copies the changeset, byte length accumulates node sizes (R5); loops that persist or apply one thing per element (batch blocks, changeset nodes, unflushed nodes, dirty pages, replayed nodes) do so for every element (R6).")
 NOT_DECIDED = ("byte equality of reads; byte offsets of blocks (sums of node sizes over flat-tree paths); the hole computation in clear; flush cadence; that reopening changes no observation beyond R1/R2.")
 ASSUMPTIONS = ["flat_tree index arithmetic is correct"]
